@@ -44,6 +44,15 @@ def _check_doc_drift(ctx, d):
     ctx.extra["doc_networks_cross_checked"] = s["doc_networks"]
 
 
+def _stage(ctx, name, before):
+    """Book-keeping: which binding produced how many mismatches."""
+    n = len(ctx.mismatches) - before
+    ctx.extra.setdefault("mismatches_by_stage", {})[name] = n
+    if n:
+        print("C06 stage %s: %d mismatch(es)" % (name, n))
+    return len(ctx.mismatches)
+
+
 def run(ctx):
     q = ctx.tier == "quick"
     d = ctx.spec_copy("subnets")
@@ -79,7 +88,9 @@ def run(ctx):
     ctx.tlc(d, "SubnetGen", "SubnetGen_run.cfg", label="probes-gen")
     nvec = count_lines(d / "subnet_vectors.ndjson")
     ctx.vh(["c06", "replay-probes", d / "subnet_vectors.ndjson", ctx.scratch / "probes.res"])
+    mark = len(ctx.mismatches)
     s1 = ctx.collect(ctx.scratch / "probes.res")
+    mark = _stage(ctx, "G:probes", mark)
     if s1["replayed"] != nvec:
         raise CheckerError("replayed %d of %d probes" % (s1["replayed"], nvec))
     ctx.evaluations += s1["evaluations"]
@@ -93,6 +104,7 @@ def run(ctx):
     s2 = ctx.collect(ctx.scratch / "sweep.res")
     validate_trace(ctx, d, "SubnetSweepTrace", "SubnetSweepTrace.cfg", "sweep_trace.ndjson",
                    "exhaustive sweep (maximal runs of constant verdicts)")
+    mark = _stage(ctx, "T:sweep-validated-by-TLC", mark)
     swept = s2["swept_v4"] + s2["swept_v6"]
     ctx.evaluations += 2 * swept
     ctx.distinct += swept
@@ -108,8 +120,10 @@ def run(ctx):
     ctx.vh(["c06", "record-random", lists, d / "point_trace.ndjson", ctx.scratch / "rand.res", n, sample,
             4 if q else 2], timeout=1500)
     s3 = ctx.collect(ctx.scratch / "rand.res")
+    mark = _stage(ctx, "T:random-judged-by-exported-list", mark)
     validate_trace(ctx, d, "SubnetPointTrace", "SubnetPointTrace.cfg", "point_trace.ndjson",
                    "random addresses re-judged by TLC")
+    mark = _stage(ctx, "T:sample-rejudged-by-TLC", mark)
     ctx.evaluations += s3["evaluations"]
     ctx.distinct += s3["distinct_nontrivial"]
     ctx.traces += s3["sampled_for_tlc"] - 1
@@ -118,8 +132,23 @@ def run(ctx):
 
 
 def replay(ctx, path):
+    """Re-evaluate the recorded address on the current tree and let TLC judge
+    the observed verdicts against the lists."""
+    import re
     r = json.load(open(path))
-    print(json.dumps(r, indent=1)[:4000])
-    print("re-run: bin/check C06 %s  (probes, sweeps and seeded random addresses are regenerated "
-          "deterministically; VERIF_SEED=%s)" % (r.get("tier", "quick"), r.get("seed", 1)))
-    return 0
+    print(json.dumps(r, indent=1)[:3000])
+    m = re.match(r"(?:\w+/)*\w+(?:\.\w+)?\((.*)\)$", r.get("key", ""))
+    if not m:
+        print("re-run: bin/check C06 %s  (sweeps are regenerated deterministically; VERIF_SEED=%s)"
+              % (r.get("tier", "quick"), r.get("seed", 1)))
+        return 0
+    addr = "zero" if m.group(1) == "netip.Addr{}" else m.group(1)
+    d = ctx.spec_copy("subnets")
+    p = ctx.vh(["c06", "eval", addr, d / "point_trace.ndjson", ctx.scratch / "eval.res"])
+    print(p.stdout.strip())
+    res = ctx.tlc(d, "SubnetPointTrace", "SubnetPointTrace.cfg", workers=1, expect_ok=False, label="replay")
+    if res.rc != 0:
+        raise CheckerError("TLC failed on the replay trace:\n" + "\n".join(res.out.splitlines()[-20:]))
+    ok = res.depth - 1 >= 1
+    print("specification (documented lists): the observed verdicts are %s" % ("ACCEPTED" if ok else "REJECTED"))
+    return 0 if ok else 1
